@@ -1,7 +1,195 @@
 import Driver.Proto
-/- driver commands of area `dep` (stub until the area is built) -/
+import MesonModel.DepPolicy.Model
+import MesonModel.Version.Model
+import MesonModel.DepPolicy.Wrap
+/- driver commands of area `dep`:
+   `seq  wrap_mode|fff|overrides|cache|system|provides|subprojects|requests`  (C10 a)
+   `wrap <config>|<env>|<faults>`                                              (C10 b) -/
 namespace Driver.DepPolicy
+open MesonModel.DepPolicy Driver
 
-def handle (cmd : String) (fs : List String) : String := "bad-op"
+def sat (found : Str) (wanted : List Str) : Bool :=
+  (MesonModel.Version.versionCompareMany found wanted).1
+
+def splitNE (sep : String) (f : String) : List String := if f == "" then [] else f.splitOn sep
+
+def decItem (f : String) : Str := if f == "E" then [] else decodeStr f
+
+def decDep (i f v : String) : Dep := { ident := decodeStr i, found := f == "1", version := decodeStr v }
+
+def parseMode : String → WrapMode
+  | "nofallback" => .nofallback | "nodownload" => .nodownload
+  | "forcefallback" => .forcefallback | "nopromote" => .nopromote | _ => .default
+
+def parseSub (f : String) : Option Sub :=
+  match f.splitOn ";" with
+  | [n, st, cf, o, v] =>
+    let ovs := (splitNE "+" o).filterMap (fun e => match e.splitOn ":" with
+      | [n, i, fd, ver] => some (decodeStr n, decDep i fd ver) | _ => none)
+    let vars := (splitNE "+" v).filterMap (fun e => match e.splitOn ":" with
+      | [n, "N"] => some (decodeStr n, VarVal.notdep)
+      | [n, "D", i, fd, ver] => some (decodeStr n, VarVal.dep (decDep i fd ver)) | _ => none)
+    some { name := decodeStr n,
+           state := (match st with | "found" => .found | "disabled" => .disabled | _ => .no),
+           configureOk := cf == "ok", overrides := ovs, vars := vars }
+  | _ => none
+
+def parseWorld (wm fff ov ca sy pr sp : String) : World :=
+  { wrapMode := parseMode wm,
+    fff := (splitNE "," fff).map decodeStr,
+    overrides := (splitNE "," ov).filterMap (fun e => match e.splitOn ":" with
+      | [n, i, fd, ver, ex] => some (decodeStr n, decDep i fd ver, ex == "1") | _ => none),
+    cache := (splitNE "," ca).filterMap (fun e => match e.splitOn ":" with
+      | [n, i, fd, ver] => some (decodeStr n, decDep i fd ver) | _ => none),
+    system := (splitNE "," sy).filterMap (fun e => match e.splitOn ":" with
+      | [n, v] => some (decodeStr n, decodeStr v) | _ => none),
+    provides := (splitNE "," pr).filterMap (fun e => match e.splitOn ":" with
+      | [n, s, hv, v] => some (decodeStr n, decodeStr s, if hv == "1" then some (decodeStr v) else none) | _ => none),
+    subs := (splitNE "/" sp).filterMap parseSub }
+
+def parseReq (f : String) : Option Request :=
+  match f.splitOn "&" with
+  | [names, wanted, req, allow, fb] =>
+    some { names := (splitNE "," names).map decItem,
+           wanted := (splitNE "," wanted).map decodeStr,
+           required := req == "1",
+           allowFallback := (match allow with | "T" => some true | "F" => some false | _ => none),
+           fallback := if fb == "N" then none else some ((splitNE "," (fb.drop 1).toString).map decItem) }
+  | _ => none
+
+def showErr : ErrKind → String
+  | .invalidArguments => "InvalidArguments" | .interpreter => "InterpreterException"
+  | .dependency => "DependencyException" | .configure => "SubprojectConfigureError"
+
+def showOut : Outcome → String
+  | .found d => "found:" ++ encodeStr d.ident
+  | .notFound => "notfound"
+  | .error k => "error:" ++ showErr k
+
+def showEffect : Effect → String
+  | .cacheGet n => "cacheget:" ++ encodeStr n
+  | .system n => "system:" ++ encodeStr n
+  | .doSubproject s => "do_subproject:" ++ encodeStr s
+  | .configure s => "configure:" ++ encodeStr s
+
+def insertSorted (x : String) : List String → List String
+  | [] => [x]
+  | y :: ys => if x < y then x :: y :: ys else y :: insertSorted x ys
+
+def sortStrs (l : List String) : List String := l.foldr insertSorted []
+
+def showDep (d : Dep) : String := s!"{encodeStr d.ident}:{boolStr d.found}:{encodeStr d.version}"
+
+def showWorld (w : World) : String :=
+  let ov := sortStrs (w.overrides.map (fun (n, d, e) => s!"{encodeStr n}={showDep d}:{boolStr e}"))
+  let ca := sortStrs (w.cache.map (fun (n, d) => s!"{encodeStr n}={showDep d}"))
+  let sp := sortStrs (w.subs.map (fun s => s!"{encodeStr s.name}=" ++
+    (match s.state with | .no => "no" | .found => "found" | .disabled => "disabled")))
+  ",".intercalate ov ++ ";" ++ ",".intercalate ca ++ ";" ++ ",".intercalate sp
+
+def showRes (r : Res) : String :=
+  showOut r.out ++ "~" ++ ",".intercalate (r.trace.map showEffect) ++ "~" ++ showWorld r.world
+
+
+/-! ### C10 (b): wrap acquisition -/
+namespace W
+open MesonModel.DepPolicy.Wrap
+
+def b (s : String) : Bool := s == "1"
+
+def parseContent (f : String) : Option Content :=
+  match f.splitOn "." with
+  | [sha, u, c, h] => some { sha := sha.toNat!, unpackOk := b u, createsDir := b c, hasBuildfile := b h }
+  | _ => none
+
+def parseFetch (f : String) : Fetch :=
+  match f with
+  | "W" => .wrapFail
+  | "O" => .otherFail
+  | _ => match parseContent f with | some c => .ok c | none => .wrapFail
+
+def parseHash (f : String) : Option Hash := if f == "-" then none else some f.toNat!
+
+def parseWhat : String → What
+  | "p" => .patch | _ => .source
+
+def parseFP (f : String) : Option FP :=
+  match f.splitOn "." with
+  | ["fetch", w, fb, i] => some (.fetch (parseWhat w) (b fb) i.toNat!)
+  | ["hash", w] => some (.hash (parseWhat w))
+  | ["rename", w] => some (.rename (parseWhat w))
+  | ["mkdir"] => some .mkdir
+  | ["pre", w] => some (.unpackPre (parseWhat w))
+  | ["post", w] => some (.unpackPost (parseWhat w))
+  | ["unpack2"] => some .unpack2
+  | ["copytree"] => some .copyTree
+  | ["cachedcopy"] => some .cachedCopy
+  | ["diff", i] => some (.diff i.toNat!)
+  | _ => none
+
+def parseFaults (f : String) : Faults :=
+  let tbl : List (FP × FaultKind) := (splitNE "," f).filterMap (fun e => match e.splitOn "=" with
+    | [l, k] => (parseFP l).map (fun fp => (fp, if k == "os" then FaultKind.os else FaultKind.other))
+    | _ => none)
+  fun fp => match tbl.find? (fun p => p.1 == fp) with | some (_, k) => k | none => .none
+
+def parseCfg (f : String) : Option Cfg :=
+  match f.splitOn "," with
+  | [nd, sF, sU, sB, sH, pF, pU, pB, pH, pD, lead] =>
+    some { nodownload := b nd,
+           source := { hasFilename := b sF, hasUrl := b sU, hasFallbackUrl := b sB, hash := parseHash sH },
+           hasPatchFilename := b pF,
+           patch := { hasFilename := b pF, hasUrl := b pU, hasFallbackUrl := b pB, hash := parseHash pH },
+           hasPatchDirectory := b pD, leadDirMissing := b lead }
+  | _ => none
+
+def parseEnv (f : String) : Option Env :=
+  match f.splitOn ";" with
+  | [d, sC, sP, sU, sFb, pC, pP, pU, pFb, pd, diffs] =>
+    match d.splitOn ",", pd.splitOn "," with
+    | [de, dd, db, cd], [pde, pdb] =>
+      some { dirExists := b de, dirIsDir := b dd, dirBuild := b db,
+             cachedDir := (if cd == "-" then none else some (b cd)),
+             source := { cache := parseContent sC, pkgfile := parseContent sP, url := parseFetch sU, fallbackUrl := parseFetch sFb },
+             patch := { cache := parseContent pC, pkgfile := parseContent pP, url := parseFetch pU, fallbackUrl := parseFetch pFb },
+             patchDirExists := b pde, patchDirBuild := b pdb,
+             diffs := (splitNE "+" diffs).map (fun e => { present := e.startsWith "1", applies := e.endsWith "1" }) }
+    | _, _ => none
+  | _ => none
+
+def showWhat : What → String | .source => "s" | .patch => "p"
+
+def showEvent : Event → String
+  | .fetch w fb => s!"fetch.{showWhat w}.{boolStr fb}"
+  | .cacheStore w sha => s!"store.{showWhat w}.{sha}"
+  | .used w sha => s!"used.{showWhat w}.{sha}"
+  | .usedCachedDir => "cacheddir"
+  | .rmtree => "rmtree"
+
+def showErr : Option Err → String
+  | none => "ok" | some .wrap => "err:wrap" | some .os => "err:os" | some .other => "err:other"
+
+def showOptSha : Option Content → String
+  | none => "-" | some c => toString c.sha
+
+def showResult (r : Result) : String :=
+  showErr r.err ++ ";" ++ ",".intercalate (r.st.trace.map showEvent) ++ ";" ++
+  s!"{boolStr r.st.dirExists},{boolStr r.st.dirBuild},{showOptSha r.st.cacheS},{showOptSha r.st.cacheP}"
+
+def handleWrap (cfg env faults : String) : String :=
+  match parseCfg cfg, parseEnv env with
+  | some c, some e => showResult (resolve c e (parseFaults faults))
+  | _, _ => "bad-wrap-case"
+
+end W
+
+def handle (cmd : String) (fs : List String) : String :=
+  match cmd, fs with
+  | "seq", [wm, fff, ov, ca, sy, pr, sp, reqs] =>
+    let w := parseWorld wm fff ov ca sy pr sp
+    let rs := (splitNE "#" reqs).filterMap parseReq
+    "#".intercalate ((lookupSeq sat w rs).map showRes)
+  | "wrap", [cfg, env, faults] => W.handleWrap cfg env faults
+  | _, _ => "bad-op"
 
 end Driver.DepPolicy
